@@ -129,9 +129,10 @@ type c15Out struct {
 
 func c15Feed(d depack, train [][]byte) (outs []c15Out, pv any, st string) {
 	pv, st = fw.Guard(func() {
+		// what Unmarshal returned is kept as returned and looked at when the whole train has been fed
 		for _, p := range train {
 			o, err := d.Unmarshal(fw.Exact(p))
-			outs = append(outs, c15Out{append([]byte(nil), o...), err == nil})
+			outs = append(outs, c15Out{o, err == nil})
 		}
 	})
 	return
